@@ -1,6 +1,6 @@
 package main
 
-// Regular expressions in the code under verification (DESIGN 2.6).
+// Regular expressions in the code under verification (DESIGN 2.4).
 //
 // T2 "any-decomposition" facts, derived mechanically from the pattern literal in the
 // *current* source on every run: whatever match the engine picks, the matched
